@@ -219,6 +219,25 @@ PROPS = {
         "floors": {"safe/event-commit": 100, "safe/event-zaprm": 10, "safe/event-boltrm": 20, "safe/recovered": 8, "unsafe/recovered": 3},
         "thorough_shards": 8,
     },
+    "C12": {
+        "harness": "c12", "driver": "c12",
+        "lean_modules": ["BleveModel.Props.C03", "BleveModel.Props.C12"],
+        "rule": ("on-disk scorch workloads (numSnapshotsToKeep 1-3, persister with 1-3 workers, small merge plan, safe and unsafe "
+                 "batches): two writers, forced merges every 150 ms, three goroutines that open a reader, hold it 1-60 ms and close "
+                 "it. Every durable event reported by the hooks (commit with the on-disk state of each named file, snapshot removal, "
+                 "file removal) and every reader opened / re-stat-ed every 5 ms / closed (with the segment files it uses and whether "
+                 "each exists) is replayed through the Lean side conditions: a removed file must be neither named by a committed "
+                 "snapshot nor used by an open reader, the files of a just-opened reader (the current state) must exist. At "
+                 "quiescence (writers stopped, directory listing stable for 300 ms) the *.zap listing is compared with the files "
+                 "the model's root.bolt names; the epochs in root.bolt are compared with the model's and with numSnapshotsToKeep; "
+                 "after Close the process holds no descriptor inside the index directory and the directory opens. "
+                 "non-trivial = every event and observation"),
+        "trusted_base": COMMON_TB + ["os.Stat / ReadDir / /proc/self/fd as observations of the file system; bbolt for reading root.bolt"],
+        "assumptions": ["files scheduled for an online copy are covered by C14", LEVEL_NOTE],
+        "floors": {"keep1/event-zaprm": 20, "keep1/event-hold": 10, "keep1/quiescent-dir": 1},
+        "thorough_shards": 6,
+        "classify": lambda m: ("purge/" + m.get("model", "")[4:]) if m.get("model", "").startswith("BAD:") else m.get("cat", ""),
+    },
     "C04": {
         "harness": "c04", "driver": "c04",
         "lean_modules": ["BleveModel.Props.Snapshot", "BleveModel.Props.C04"],
